@@ -96,13 +96,14 @@ class YAMLPath:
         if not isinstance(other, (YAMLPath, str)):
             return False
 
-        equiv_this = YAMLPath(self)
-        equiv_this.separator = PathSeparators.FSLASH
-        cmp_this = str(equiv_this)
-
-        equiv_that = YAMLPath(other)
-        equiv_that.separator = PathSeparators.FSLASH
-        cmp_that = str(equiv_that)
+        # Compare the fully parsed segments so that superfluous escapes and
+        # demarcation in either original text do not matter
+        cmp_this = [
+            (str(segment_type), str(segment_attrs))
+            for (segment_type, segment_attrs) in YAMLPath(self).escaped]
+        cmp_that = [
+            (str(segment_type), str(segment_attrs))
+            for (segment_type, segment_attrs) in YAMLPath(other).escaped]
 
         return cmp_this == cmp_that
 
